@@ -219,6 +219,7 @@ func PortionOfText(s string) *big.Rat {
 	return nil
 }
 
+var acctRe = regexp.MustCompile(`^[a-zA-Z0-9_-]+(:[a-zA-Z0-9_-]+)*$`)
 var intRe = regexp.MustCompile(`^[+-]?[0-9]+$`)
 
 func parseInt(s string) *big.Int {
@@ -246,6 +247,10 @@ func ParseVar(typ, raw string) (Value, string) {
 		}
 		return VMon{Asset: parts[0], Amt: n}, ""
 	case "account":
+		if !acctRe.MatchString(raw) {
+			// a text outside the account grammar: the properties do not say what it denotes
+			return nil, EUnspecified
+		}
 		return VAcct(raw), ""
 	case "asset":
 		return VAsset(raw), ""
